@@ -51,6 +51,55 @@ fn c04_thunk_state_machine() {
 }
 }
 
+/// kind: 0 = Pending(Expr), 1 = Pending(FieldPlus), 2 = Pending(Call)
+fn pending_protocol_case(kind: u8) {
+    let arena = Arena::new();
+    let interner = StrInterner::new();
+    let v = any_finite();
+    let env = any_env();
+    let null_expr: &ir::Expr<'_> = arena.alloc(ir::Expr::Null);
+    let func: GcView<FuncData<'_>> = GcView::kani_unmanaged(FuncData::new(&[], FuncKind::Identity { name: None }));
+    let arg = GcView::kani_unmanaged(ThunkData::new_done(ValueData::Null));
+    let thunk = match kind {
+        0 => ThunkData::new_pending_expr(null_expr, Gc::from(&env)),
+        1 => ThunkData::new_pending_field_plus(null_expr, interner.intern(&arena, "f"), Gc::from(&env)),
+        _ => ThunkData::new_pending_call(Gc::from(&func), vec![Gc::from(&arg)].into_boxed_slice()),
+    };
+    assert!(thunk.get_value().is_none(), "a pending thunk has no value");
+    let s1 = thunk.switch_state();
+    let got_payload = match kind {
+        0 => matches!(&s1, ThunkState::Pending(PendingThunk::Expr { .. })),
+        1 => matches!(&s1, ThunkState::Pending(PendingThunk::FieldPlus { .. })),
+        _ => matches!(&s1, ThunkState::Pending(PendingThunk::Call { .. })),
+    };
+    assert!(got_payload, "the first demand receives the payload");
+    assert!(matches!(&*thunk.state(), ThunkState::InProgress), "and leaves the thunk in progress - whatever the kind of payload");
+    let s2 = thunk.switch_state();
+    assert!(matches!(&s2, ThunkState::InProgress), "a second demand does not receive the payload again (it is reported as infinite recursion)");
+    thunk.set_done(ValueData::Number(v));
+    assert!(matches!(thunk.get_value(), Some(ValueData::Number(x)) if x == v), "set_done publishes the value");
+    core::mem::forget((s1, s2));
+    core::mem::forget(thunk);
+    core::mem::forget((env, func, arg, interner));
+}
+
+// @harness id=c04_pending_kinds_protocol props=C04,C10 tier=quick cap=900
+// @desc ThunkData::switch_state for each kind of delayed computation - an expression (locals, fields, array items), a `+:` field, and a CALL thunk (the lazy elements std.makeArray / std.map / std.mapWithKey produce): the first demand receives the payload and marks the thunk InProgress, a second demand while it is being evaluated sees InProgress (never the payload again, so a self-dependent element is reported as infinite recursion instead of being re-entered), set_done publishes the value
+// @bound the three payload kinds
+// @funcs ThunkData::switch_state, ThunkData::set_done, ThunkData::get_value, ThunkData::new_pending_expr, ThunkData::new_pending_field_plus, ThunkData::new_pending_call
+eval_stubs! {
+#[kani::proof]
+#[kani::unwind(6)]
+fn c04_pending_kinds_protocol() {
+    pending_protocol_case(0);
+    kani::cover!(true, "expression thunk");
+    pending_protocol_case(1);
+    kani::cover!(true, "field-plus thunk");
+    pending_protocol_case(2);
+    kani::cover!(true, "call thunk");
+}
+}
+
 // @harness id=c04_new_thunk_is_lazy props=C04,C06 tier=quick cap=1200
 // @desc Program::new_pending_expr_thunk (every binding site: locals, arguments, array elements, object fields): the thunk is created already evaluated only for the literal forms null / booleans / FINITE numbers / strings / the empty array (and function literals); every other expression - a variable, an error expression, a non-finite number literal - becomes a Pending thunk holding the expression, i.e. nothing is evaluated at creation time and an overflowing literal can never become a value
 // @bound one expression drawn from a menu of 8 forms, the number literal ranging over all 2^64 doubles
